@@ -7,7 +7,11 @@ import (
 	"strings"
 	"time"
 
+	"encoding/json"
+	"sort"
+
 	"github.com/flant/shell-operator/pkg/task"
+	"github.com/flant/shell-operator/pkg/task/dump"
 	"github.com/flant/shell-operator/pkg/task/queue"
 	"github.com/flant/shell-operator/pkg/utils/verifsched"
 )
@@ -356,8 +360,72 @@ func c05Op(c *Case, w *workerQ, op string, args []int, st string, h, a, tl []int
 	c.Oracle(qItems(q))
 }
 
+// c05Dump: the queue dump of the debug endpoint is the other place where a queue's length is reported.
+// A set of 2..5 queues (the main one among them) with 0..5 tasks each; per queue the dump must report
+// the number of tasks the queue holds, list exactly those tasks, and the summary must add up.
+func c05Dump(c *Case, rng *Rng) {
+	tqs := queue.NewTaskQueueSet()
+	ctx, cancel := context.WithCancel(context.Background())
+	defer cancel()
+	tqs.WithContext(ctx)
+	nq := rng.Range(2, 5)
+	names := []string{"main"}
+	for i := 1; i < nq; i++ {
+		names = append(names, fmt.Sprintf("q%d", i))
+	}
+	id := 0
+	var want []string
+	total := 0
+	for _, n := range names {
+		tqs.NewNamedQueue(n, func(task.Task) queue.TaskResult { return queue.TaskResult{Status: queue.Success} })
+		k := rng.Intn(6)
+		for j := 0; j < k; j++ {
+			id++
+			tqs.GetByName(n).AddLast(mkTask(id))
+		}
+		want = append(want, fmt.Sprintf("%s:%d", n, k))
+		total += k
+	}
+	c.Desc = "queue dump of a set: " + joinStrs(want)
+	c.Nontrivial = nq >= 3 && total > 0
+	for _, format := range []string{"json"} {
+		res := Catch(func() string {
+			out := dump.TaskQueues(tqs, format, true)
+			var got []string
+			sum := -1
+			if format == "json" {
+				b, err := json.Marshal(out)
+				if err != nil {
+					return "marshal-error"
+				}
+				var d struct {
+					Active, Empty []struct {
+						Name       string
+						TasksCount int
+						Tasks      []struct{ Index int }
+					}
+					Summary struct{ TotalTasks int }
+				}
+				if json.Unmarshal(b, &d) != nil {
+					return "unmarshal-error"
+				}
+				for _, q := range append(d.Active, d.Empty...) {
+					got = append(got, fmt.Sprintf("%s:%d:%d", q.Name, q.TasksCount, len(q.Tasks)))
+				}
+				sum = d.Summary.TotalTasks
+			}
+			sort.Strings(got)
+			return fmt.Sprintf("got=%s sum=%d", joinStrs(got), sum)
+		})
+		sw := append([]string{}, want...)
+		sort.Strings(sw)
+		c.Oracle(fmt.Sprintf("dump fmt=%s want=%s total=%d %s", format, joinStrs(sw), total, res))
+	}
+	c.Note("dump")
+}
+
 func runC05(r *Run) {
-	r.Rule = "random histories of the public TaskQueue operations (addFirst/addLast/addAfter/addBefore/remove/removeFirst/removeLast/Filter/Get) over ids 1..4 (ids present, absent, duplicated), a walk (Iterate) parked at its k-th element while Remove is attempted from another goroutine, interleaved with worker picks and scripted handler results (Success/Keep/Fail/Repeat with head/after/tail tasks, in half of the results three slices of one backing array with spare capacity) on a real started queue; thorough adds every history of length <= 4 over 2 ids of the slice-level ops. A case is non-trivial when it has >= 3 ops and at least one op addressed an id (addAfter/addBefore/remove/get/result); distinct = distinct op-line sequences."
+	r.Rule = "random histories of the public TaskQueue operations (addFirst/addLast/addAfter/addBefore/remove/removeFirst/removeLast/Filter/Get) over ids 1..4 (ids present, absent, duplicated), a walk (Iterate) parked at its k-th element while Remove is attempted from another goroutine, a queue-dump family (pkg/task/dump over a set of 2..5 queues: per queue the reported length equals the tasks held and listed, the summary adds up), interleaved with worker picks and scripted handler results (Success/Keep/Fail/Repeat with head/after/tail tasks, in half of the results three slices of one backing array with spare capacity) on a real started queue; thorough adds every history of length <= 4 over 2 ids of the slice-level ops. A case is non-trivial when it has >= 3 ops and at least one op addressed an id (addAfter/addBefore/remove/get/result); distinct = distinct op-line sequences."
 	// corpus: the minimal failing history of the repaired defect (addAfter with an absent id)
 	r.One(0, func(c *Case, _ *Rng) {
 		c.Desc = "corpus: addAfter/addBefore with an absent id"
@@ -406,6 +474,7 @@ func runC05(r *Run) {
 		c05Op(c, w, "pick", nil, "", nil, nil, nil)
 		c05Op(c, w, "result", []int{1}, "keep", []int{21, 22}, nil, []int{24, 25})
 	})
+	r.Cases(500000, r.N(60, 600), 0, c05Dump)
 	n := r.N(3000, 40000)
 	r.Cases(10, n, 0, func(c *Case, rng *Rng) {
 		w := newWorkerQ(fmt.Sprintf("c05-%d", c.Idx))
